@@ -47,7 +47,7 @@ def pw_of(pat, n):
 def util_events(rng, thorough):
     from gufo.snmp import _fast
     out = []
-    lens = [0, 1, 2, 3, 5, 8, 1000, 2 ** 20 - 1, 2 ** 20, 2 ** 20 + 1] + ([7, 64, 4096, 2 ** 20 + 7] if thorough else [])
+    lens = [0, 1, 2, 3, 5, 6, 7, 8, 12, 16, 31, 32, 33, 64, 100, 1000, 1024, 1025, 65536, 2 ** 19, 2 ** 19 + 1, 2 ** 20 - 1, 2 ** 20, 2 ** 20 + 1] + ([4096, 2 ** 20 + 7, 2 ** 21, 3 * 2 ** 20 + 5] if thorough else [])
     pats = [[97], [109, 97, 112, 108, 101, 115, 121, 114, 117, 112], [0, 255, 1]]
     for alg in (1, 2, 0, 3, 65):
         for n in lens:
